@@ -77,6 +77,9 @@ struct Incoming {
   std::vector<Resp> resps;         // response frames the Rpc put on the wire for this id
 };
 
+// argument used as written when it lies in [lo, hi] (Op::in() shifts in-range values by lo when lo != 0), folded into the range otherwise
+int64_t direct(const Op &op, size_t i, int64_t lo, int64_t hi) { int64_t v = op.arg(i, lo); return (v >= lo && v <= hi) ? v : op.in(i, lo, hi); }
+
 Json paramsFor(int pay, int idx) {
   switch (pay) {
     case 1: return Json{{"n", idx}};
@@ -434,7 +437,7 @@ std::string run(const Scenario &s, CaseInfo &info) {
   std::vector<TopOp> tops;
   for (auto &op : s.ops) {
     switch (op.code) {
-      case CFG: w.proto_kind = (int)op.in(0, 0, NPROTO - 1); w.timeout_s = (int)op.in(1, 1, 5); break;
+      case CFG: w.proto_kind = (int)op.in(0, 0, NPROTO - 1); w.timeout_s = (int)direct(op, 1, 1, 5); break;
       case REQUEST: { TopOp t{REQUEST, &op, (int)w.chains.size()}; w.chains.emplace_back(); tops.push_back(t); break; }
       case THEN: if (!w.chains.empty() && (int)w.chains.back().size() < kMaxChain && !tops.empty())
                    w.chains.back().push_back(ThenSpec{(int)op.in(0, 0, 1), (int)op.in(1, 0, NSYNC - 1), (int)op.in(2, 0, 63)});
@@ -459,7 +462,7 @@ std::string run(const Scenario &s, CaseInfo &info) {
   std::vector<Step> steps;
   for (size_t i = 0; i < tops.size(); ++i) {
     if (tops[i].code == ADVANCE) {
-      uint64_t ms = (uint64_t)tops[i].op->in(0, 1, 7000);
+      uint64_t ms = (uint64_t)direct(*tops[i].op, 0, 1, 7000);
       uint64_t first = ms % 1000;
       if (first) { steps.push_back({1, 0, first}); steps.push_back({2, 0, 0}); steps.push_back({2, 0, 0}); }
       for (uint64_t k = 0; k < ms / 1000; ++k) { steps.push_back({1, 0, 1000}); steps.push_back({2, 0, 0}); steps.push_back({2, 0, 0}); }
@@ -568,7 +571,8 @@ Scenario expand(uint64_t seed) {
   mk(CFG, {r.rng(0, 2), timeout});
   int n = (int)r.pick({{1, 2}, {3, 6}, {3, 12}, {2, 24}});
   auto sync = [&]() { return r.pick({{16, SY_NONE}, {4, SY_RESULT}, {2, SY_ERROR}, {2, SY_TWICE}, {4, SY_OTHER}, {2, SY_UNKNOWN}, {4, SY_PARENT}, {1, SY_PEERREQ}}); };
-  int collide_at = collide ? (int)r.rng(0, n - 1) : -1;
+  // (half of them right at the start: later on, nested requests issued by timeout callbacks during the wait often take the id first)
+  int collide_at = collide ? (r.chance(1, 2) ? 0 : (int)r.rng(0, n - 1)) : -1;
   for (int i = 0; i < n; ++i) {
     if (i == collide_at) {
       // the peer sends a request that is deferred (never / too late answered) under the id the Rpc will use next; the own request
